@@ -258,7 +258,7 @@ func (t *Type) Depth() int {
 type Catalogue struct {
 	NInt, NStr, NBool, NF64, NU8, NC128        *Type
 	S0, SP, Rec, MA, SE, NSl, NMap, NArr, NPtr *Type
-	E1, E2, E3, E4                             *Type
+	E1, E2, E3, E4, TwA, TwB                   *Type
 	ME, MP                                     *Type // named structs with user Equal/Compare methods (Go/Methods.v)
 	WithMethods                                bool
 	All                                        []*Type
@@ -291,6 +291,9 @@ func NewCatalogue() *Catalogue {
 	c.E2 = Named(31, "E2", 2, StP([]bool{false, true}, B("string"), B("float64")))
 	c.E3 = Named(32, "E3", 1, St(B("int"), B("bool")))
 	c.E4 = Named(33, "E4", 2, StP([]bool{true, true}, B("int"), B("string"))) // imported, every field unexported
+	// the same type name in two imported packages of the same package name: one flat, one owning memory
+	c.TwA = Named(34, "Tw", 1, St(B("int"), B("bool")))
+	c.TwB = Named(35, "Tw", 2, St(Sl(B("int")), P(B("int")), M(B("string"), B("int"))))
 	// ids 100..199: value receiver/parameter; 200..299: pointer receiver/parameter (Go/Methods.v);
 	// the methods look at the first field only
 	c.ME = Named(100, "ME", 0, St(B("int"), B("string")))
@@ -334,6 +337,7 @@ func (c *Catalogue) Special() []*Type {
 		M(B("string"), nrow), nrow, Sl(nrow), M(B("string"), Ar(2, B("int"))),
 		Sl(Ar(2, P(c.S0))), P(P(c.S0)), M(B("string"), Sl(Sl(B("int")))), Sl(M(B("string"), Sl(B("int")))),
 		M(B("string"), St(Sl(B("int")), B("int"))), Sl(St(Sl(B("int")), P(B("int")))),
+		St(c.TwA, c.TwB), Sl(St(c.TwA, c.TwB)), M(B("string"), St(c.TwA, c.TwB)), P(St(c.TwA, Sl(c.TwB))),
 	}
 }
 
